@@ -1,13 +1,13 @@
 SPECIFICATION Spec
 CONSTANTS
-  MaxS = 3
-  EDepth = 2
-  SDepth = 1
-  Shapes = {"", "H", "L", "C", "HC", "LC"}
-  Mod = 1
+  MaxS = 1
+  EDepth = 0
+  SDepth = 0
+  Shapes = {""}
+  Mod = 6
   NCalls = 12
-  NProg = 200
-  Sample = TRUE
+  NProg = 1
+  Sample = FALSE
   Wide = TRUE
   Dump = TRUE
 INVARIANT NoDangling
